@@ -707,6 +707,12 @@ func (ec *evalCtx) call(x *ast.CallExpr) (T, types.Type, error) {
 		}
 		b, _, err := ec.eval(x.Args[1])
 		if err != nil {
+			if name == "implies" && (strings.Contains(err.Error(), "does not capture") || strings.Contains(types.ExprString(x.Args[1]), "captured(")) {
+				// the consequent speaks about a variable captured by a closure
+				// that the value at hand is not: the consequent cannot hold
+				// here, so the implication holds only where the antecedent fails
+				return T{S: not(a.S), Sort: SBool}, types.Typ[types.Bool], nil
+			}
 			return b, nil, err
 		}
 		if name == "iff" {
@@ -918,11 +924,37 @@ func (ec *evalCtx) call(x *ast.CallExpr) (T, types.Type, error) {
 			}
 			ci := vc.closureByRef[fv.S]
 			if ci == nil {
-				// not a closure created on this path: nothing is known about it
-				vc.nfresh++
-				n := fmt.Sprintf("captured!%d", vc.nfresh)
-				vc.declare(n, nil, SInt)
-				return T{S: n, Sort: SInt}, nil, nil
+				// not a closure created on this path (e.g. the result of a
+				// call): the captured variable is a function of the closure
+				// value.  Its type is that of the module's closures which
+				// capture a variable of this name - if they agree.
+				var ty types.Type
+				for _, f := range vc.P.AllFuncs {
+					if f.Parent() == nil {
+						continue
+					}
+					for _, v := range f.FreeVars {
+						if v.Name() != id.Name {
+							continue
+						}
+						t := v.Type()
+						if pt, isPtr := t.Underlying().(*types.Pointer); isPtr {
+							// go/ssa captures variables by reference: the free variable is the cell
+							t = pt.Elem()
+						}
+						if ty != nil && !types.Identical(ty, t) {
+							return T{}, nil, ec.errf(x, "closure does not capture %s unambiguously (several closures capture a variable of that name with different types)", id.Name)
+						}
+						ty = t
+					}
+				}
+				if ty == nil {
+					return T{}, nil, ec.errf(x, "closure does not capture %s", id.Name)
+				}
+				srt := vc.sortOf(ty)
+				fn := "captured_" + mangle(id.Name) + "_" + mangle(srt)
+				vc.declare(fn, []string{SInt}, srt)
+				return T{S: app(fn, fv.S), Sort: srt}, ty, nil
 			}
 			for i, v := range ci.fn.FreeVars {
 				if v.Name() != id.Name || i >= len(ci.bindings) {
